@@ -458,7 +458,12 @@ def loop(options: argparse.Namespace) -> None:
         if as_path is None:
             as_path = options.as_path
         if options.neighbors and not any(n == '*' for n in options.neighbors):
-            prefix = ', '.join(f'peer {neighbor}' for neighbor in options.neighbors)
+            if len(options.neighbors) == 1:
+                prefix = f'peer {options.neighbors[0]}'
+            else:
+                # several peers: the bracket selector, every token separated by a space
+                # (the API splits on whitespace, so '10.0.0.1,' would not be an address)
+                prefix = 'peer [ ' + ' , '.join(str(neighbor) for neighbor in options.neighbors) + ' ]'
         else:
             prefix = 'peer *'
         for ip in options.ips:
